@@ -83,6 +83,12 @@ func decodeRelease(data string) (*rspb.Release, error) {
 	if err := json.Unmarshal(b, &rls); err != nil {
 		return nil, err
 	}
+	// A record that is valid JSON but was not written by Helm can lack the info object.
+	// Every reader of a release dereferences it, so a decoded release always carries a
+	// (possibly empty) one.
+	if rls.Info == nil {
+		rls.Info = &rspb.Info{}
+	}
 	return &rls, nil
 }
 
